@@ -179,3 +179,174 @@ def rule_stable_bijections(prog, rep, R, only=None, minimum=50):
                 rep.violated(R, site, k, f"{show(bad[0][0], 120)}: {bad[0][1]}")
             else:
                 rep.holds(R, site, k, "no unstable exp/log composition", nontrivial=False)
+
+
+# ---------------------------------------------------------------- jit-compiled closures and what they capture
+JIT_DECOS = ("eqx.filter_jit", "equinox.filter_jit", "jax.jit", "jit", "filter_jit")
+
+
+def _is_jit_expr(node) -> bool:
+    src = ast.unparse(node).replace(" ", "")
+    return src in JIT_DECOS or src.startswith(tuple(f"partial({d}" for d in JIT_DECOS)) or \
+        src.startswith(tuple(f"functools.partial({d}" for d in JIT_DECOS))
+
+
+def _free_reads(fn) -> set:
+    a = fn.args
+    bound = {p.arg for p in a.posonlyargs + a.args + a.kwonlyargs}
+    if a.vararg:
+        bound.add(a.vararg.arg)
+    if a.kwarg:
+        bound.add(a.kwarg.arg)
+    body = [fn.body] if isinstance(fn, ast.Lambda) else fn.body
+    for b in body:
+        for n in ast.walk(b):
+            if isinstance(n, ast.Name) and isinstance(n.ctx, ast.Store):
+                bound.add(n.id)
+    out = set()
+    for b in body:
+        for n in ast.walk(b):
+            if isinstance(n, ast.Name) and isinstance(n.ctx, ast.Load) and n.id not in bound:
+                out.add(n.id)
+    return out
+
+
+def jit_stale_captures(fn):
+    """[(nested function node, name, line of the rebinding)]: a nested function compiled with jit at the top level of
+    `fn` (decorated, or passed to eqx.filter_jit / jax.jit) reads an enclosing variable that a LOOP of `fn` rebinds.
+    jit traces the function once per argument signature and bakes captured values in as constants: eager Python
+    reads the variable at every call (late binding), the compiled function keeps the value of the first call."""
+    nested = []
+    for st in fn.body:
+        if isinstance(st, ast.FunctionDef) and any(_is_jit_expr(d.func if isinstance(d, ast.Call) and not _is_jit_expr(d) else d)
+                                                   for d in st.decorator_list):
+            nested.append(st)
+        for n in ast.walk(st) if not isinstance(st, (ast.FunctionDef, ast.For, ast.While)) else []:
+            if isinstance(n, ast.Call) and _is_jit_expr(n.func) and n.args:
+                a0 = n.args[0]
+                if isinstance(a0, ast.Lambda):
+                    nested.append(a0)
+                elif isinstance(a0, ast.Name):
+                    for st2 in fn.body:
+                        if isinstance(st2, ast.FunctionDef) and st2.name == a0.id:
+                            nested.append(st2)
+    rebound = {}
+    for st in fn.body:
+        if isinstance(st, (ast.For, ast.While)):
+            for n in ast.walk(st):
+                if isinstance(n, ast.Name) and isinstance(n.ctx, ast.Store):
+                    rebound.setdefault(n.id, n.lineno)
+    out = []
+    for nf in nested:
+        for name in sorted(_free_reads(nf) & set(rebound)):
+            out.append((nf, name, rebound[name]))
+    return nested, out
+
+
+JIT_CAPTURE_CONTROL = (
+    "def f(key, xs):\n"
+    "    @eqx.filter_jit\n"
+    "    def g(x):\n        return h(x, key=subkey)\n"
+    "    for x in xs:\n        key, subkey = jr.split(key)\n        g(x)\n")
+
+
+def rule_jit_captures(prog, rep, R, only=None, minimum=1, what=""):
+    rep.rule(R, "no function compiled with jit inside another function (decorated or passed to eqx.filter_jit / "
+                "jax.jit at its top level) reads an enclosing variable that a loop of that function rebinds: the "
+                "compiled function keeps the value captured when it was first traced, eager code reads the current one"
+                + what, minimum=minimum)
+    n = 0
+    for m in prog.modules.values():
+        for fn in [x for x in ast.walk(m.tree) if isinstance(x, ast.FunctionDef)]:
+            if only is not None and not only(m, fn):
+                continue
+            nested, bad = jit_stale_captures(fn)
+            site = f"{m.relpath}:{fn.lineno}"
+            if not [x for x in fn.body if isinstance(x, (ast.For, ast.While))] and not nested:
+                continue
+            n += 1
+            if bad:
+                for nf, name, line in bad:
+                    rep.violated(R, f"{m.relpath}:{nf.lineno}", f"{m.name}.{fn.name}:jit-closure@{getattr(nf, 'name', 'lambda')}:{name}",
+                                 f"the jit-compiled closure {getattr(nf, 'name', 'lambda')} reads `{name}`, which the loop at "
+                                 f"line {line} rebinds: after the first trace every call uses the value captured then (for "
+                                 f"a PRNG key: every batch gets the same key), while the same code run eagerly reads the "
+                                 f"current value")
+            else:
+                rep.holds(R, site, f"{m.name}.{fn.name}:jit-closures",
+                          f"{len(nested)} jit-compiled nested function(s), none reads a loop-rebound variable")
+    ctl = ast.parse(JIT_CAPTURE_CONTROL).body[0]
+    _, bad = jit_stale_captures(ctl)
+    rep.check(any(name == "subkey" for _, name, _ in bad), R, "-", "control:stale-capture-recognised",
+              "a jitted closure reading a loop-rebound key is reported", "the analysis no longer recognises a stale capture")
+    return n
+
+
+# ---------------------------------------------------------------- eqx.error_if only acts through its result
+def discarded_error_ifs(prog):
+    """[(module, function, call node)]: eqx.error_if(...) used as a statement, or bound to a name that is never read.
+    The check is attached to the RETURNED array: eagerly it raises either way, under jit an unused result is removed by
+    dead-code elimination together with the check."""
+    out, n = [], 0
+    for m in prog.modules.values():
+        for fn in [x for x in ast.walk(m.tree) if isinstance(x, ast.FunctionDef)]:
+            loads = {}
+            for x in ast.walk(fn):
+                if isinstance(x, ast.Name) and isinstance(x.ctx, ast.Load):
+                    loads.setdefault(x.id, []).append(x.lineno)
+            for st in ast.walk(fn):
+                call = None
+                target = None
+                if isinstance(st, ast.Expr) and isinstance(st.value, ast.Call):
+                    call = st.value
+                elif isinstance(st, ast.Assign) and isinstance(st.value, ast.Call) and len(st.targets) == 1 and \
+                        isinstance(st.targets[0], ast.Name):
+                    call, target = st.value, st.targets[0].id
+                if call is None:
+                    continue
+                src = ast.unparse(call.func)
+                if src.rsplit(".", 1)[-1] != "error_if":
+                    continue
+                if _outer_function(m, st) is not fn:
+                    continue
+                n += 1
+                if target is None:
+                    out.append((m, fn, call, "its result is discarded"))
+                elif not any(ln > st.lineno or True for ln in loads.get(target, [])) or target not in loads:
+                    out.append((m, fn, call, f"its result is bound to `{target}`, which is never read"))
+    return n, out
+
+
+def _outer_function(m, node):
+    best = None
+    for fn in ast.walk(m.tree):
+        if isinstance(fn, ast.FunctionDef) and any(x is node for x in ast.walk(fn)):
+            if best is None or any(x is fn for x in ast.walk(best)):
+                best = fn
+    return best
+
+
+def rule_error_if_consumed(prog, rep, R, minimum=1):
+    rep.rule(R, "every eqx.error_if(x, pred, msg) is consumed through its return value (assigned and used, or returned): "
+                "the runtime check lives on the returned array, so a call whose result is dropped raises eagerly but "
+                "disappears under jit (jit and eager then disagree on invalid input)", minimum=minimum)
+    n, bad = discarded_error_ifs(prog)
+    total = 0
+    for m in prog.modules.values():
+        for c in ast.walk(m.tree):
+            if isinstance(c, ast.Call) and ast.unparse(c.func).rsplit(".", 1)[-1] == "error_if":
+                total += 1
+                hit = [b for b in bad if b[2] is c]
+                site = f"{m.relpath}:{c.lineno}"
+                if hit:
+                    rep.violated(R, site, f"{m.name}:error_if@{hit[0][1].name}",
+                                 f"eqx.error_if in {hit[0][1].name}: {hit[0][3]} - the check is dead code under jit")
+                else:
+                    rep.holds(R, site, f"{m.name}:error_if@line{c.lineno}", "result consumed")
+    ctl = ast.parse("def f(x):\n    eqx.error_if(x, x <= 0, 'm')\n    return x\n")
+    import types
+    fake = types.SimpleNamespace(modules={"ctl": types.SimpleNamespace(tree=ctl, relpath="<control>", name="ctl")})
+    _, cb = discarded_error_ifs(fake)
+    rep.check(len(cb) == 1, R, "-", "control:discarded-error_if-recognised", "a statement-level error_if is reported",
+              "the analysis no longer recognises a discarded error_if")
+    return total
